@@ -172,7 +172,7 @@ func genC05(r *simrt.Rand, tier string) json.RawMessage {
 	nSeg := r.Range(2, 5)
 	for seg := 0; seg < nSeg; seg++ {
 		c.Ops = append(c.Ops, genWrites(r, c.Nodes, r.Range(1, 5), nIds, &ver, 0.3)...)
-		switch r.Intn(9) {
+		switch r.Intn(10) {
 		case 0:
 			c.Ops = append(c.Ops, W3Op{K: "crash", Node: r.Range(1, c.Nodes)})
 		case 1:
@@ -201,7 +201,30 @@ func genC05(r *simrt.Rand, tier string) json.RawMessage {
 				b := a%c.Nodes + 1
 				c.Ops = append(c.Ops, W3Op{K: "oneway", A: a, B: b})
 			}
+		case 8:
+			// the node dies at one of its next durable-write boundaries (inside whatever the
+			// following operations make it write) and comes back a little later
+			n := r.Range(1, c.Nodes)
+			c.Ops = append(c.Ops, W3Op{K: "crashat", Node: n, N: r.Range(1, 14)})
+			c.Ops = append(c.Ops, genWrites(r, c.Nodes, r.Range(1, 4), nIds, &ver, 0.3)...)
+			c.Ops = append(c.Ops, W3Op{K: "wait", Ms: r.Range(100, 2500)}, W3Op{K: "restart", Node: n})
 		}
+	}
+	if c.Nodes >= 3 && c.Replicas == 3 && r.Bool(0.25) {
+		// a replica is cut off, the others move on and compact their logs past it; when the
+		// network heals it is caught up by a snapshot - and dies at one of the durable writes
+		// of that catch-up, then restarts
+		lag := r.Range(1, c.Nodes)
+		c.Cfg.SnapshotOffset = []int64{1, 2, 3}[r.Intn(3)]
+		c.Ops = append(c.Ops, W3Op{K: "heal"}, W3Op{K: "wait", Ms: 1500}, W3Op{K: "isolate", Node: lag})
+		ws := genWrites(r, c.Nodes, r.Range(3, 6), nIds, &ver, 0)
+		for i := range ws {
+			if ws[i].Node == lag {
+				ws[i].Node = lag%c.Nodes + 1
+			}
+		}
+		c.Ops = append(c.Ops, ws...)
+		c.Ops = append(c.Ops, W3Op{K: "wait", Ms: 10500}, W3Op{K: "crashat", Node: lag, N: r.Range(1, 10)}, W3Op{K: "heal"}, W3Op{K: "wait", Ms: 4000}, W3Op{K: "restart", Node: lag}, W3Op{K: "wait", Ms: 1000})
 	}
 	b, _ := json.Marshal(c)
 	return b
